@@ -11,6 +11,10 @@ def loopCfg : Sdc.UdpSendLoop.Cfg := ⟨10000, 100000⟩
 def queueKey : List String := ["send_time", "repeat"]
 /-- what `add_outbound_message` does, in program order (traced on the real method) -/
 def addOutboundOrder : List String := ["register", "put", "put", "put", "put", "put"]
+/-- the ranges `_repeated_enqueue_msg` asks the random source for: (multicast set?, function, a, b) -/
+def drawRanges : List (Bool × String × Nat × Nat) := [(false, "randint", 0, 500), (false, "randrange", 50, 250), (true, "randint", 0, 500), (true, "randrange", 50, 250)]
+/-- what `NetworkingThread.join` does, in program order (thread joins with their timeout, then the closes) -/
+def joinTrace : List (String × String) := [("join", "recv None"), ("join", "send None"), ("join", "qread None"), ("close", "multi_in"), ("close", "multi_out"), ("close", "inbound_selector"), ("close", "outbound_selector")]
 /-- every `_send_*` of WSDiscovery: (name, destination is the multicast address, parameter set handed over) -/
 def senders : List (String × Bool × Params) := [("_send_bye", true, ⟨500, 4, 50, 250, 500⟩), ("_send_hello", true, ⟨500, 4, 50, 250, 500⟩), ("_send_probe", true, ⟨500, 4, 50, 250, 500⟩), ("_send_probe_match", false, ⟨500, 2, 50, 250, 500⟩), ("_send_resolve", true, ⟨500, 4, 50, 250, 500⟩), ("_send_resolve_match", false, ⟨500, 2, 50, 250, 500⟩)]
 end Sdc.Generated
